@@ -526,7 +526,15 @@ func (fr *Frame) applyContract(st *State, ct *FnContract, callee *ssa.Function, 
 		c.assume(implies(st.Reach, g))
 	}
 	// modifies
-	if ct.ModAll {
+	if len(ct.ModTypes) > 0 {
+		x.typedHavoc(st, pre, ct, func(n string) string {
+			t, _ := sc.typeByName(n)
+			if t == nil {
+				return n
+			}
+			return ownerName(t)
+		})
+	} else if ct.ModAll {
 		x.havocAllHeap(st)
 	} else {
 		for _, m := range ct.Modifies {
@@ -548,12 +556,30 @@ func (fr *Frame) applyContract(st *State, ct *FnContract, callee *ssa.Function, 
 	bindResults(post.vars, sig, res)
 	// ghost updates declared by the contract (keys may name results; right-hand sides read the pre-state)
 	fr.applyGhost(st, ct, &Scope{x: x, vars: post.vars, st: pre, old: pre, pkg: pkg})
+	for ri, opt := range []string{"records", "records1"} {
+		name, ok := ct.Options[opt]
+		if !ok || len(res) <= ri {
+			continue
+		}
+		// result ri is remembered under a name: recorded("name") in later clauses of the caller
+		rt := sig.Results().At(ri).Type()
+		if x.recTypes == nil {
+			x.recTypes = map[string]types.Type{}
+		}
+		x.recTypes[name] = rt
+		st.Comp["g:rec:"+name+"|"+c.sortOf(rt)] = res[ri]
+	}
 	if hasOpt(ct, "now") && len(res) == 1 {
 		// the result is a reading of the clock: lastnow() refers to it
 		st.Comp["g:lastnow|"+c.sortOf(sig.Results().At(0).Type())] = res[0]
 	}
 	for _, cl := range ct.Ensures {
-		c.assume(implies(st.Reach, post.evalBool(cl.E)))
+		gv, ok := post.tryEval(cl.E)
+		if !ok || !(gv.K == "bool" || (gv.Ty != nil && isBool(gv.Ty))) {
+			// a postcondition phrased over values only the callee records: not available to this caller (assuming less is sound)
+			continue
+		}
+		c.assume(implies(st.Reach, gv.T))
 	}
 	return res
 }
